@@ -109,7 +109,7 @@ def run_pure(eng, ctx, clo, args):
     """value of a side-effect-free closure call: executed on a copy of the context, the results of its paths joined by ite"""
     if not isinstance(clo, Closure):
         raise Unsupported(f"closure expected, got {clo}")
-    b = eng.prog.closures.get(clo.span)
+    b = eng.prog.closure_body(clo)
     if b is None:
         raise Unsupported(f"closure body {clo.span} not found")
     c2 = ctx.clone()
